@@ -41,6 +41,128 @@ NOT_QUERY = {
 }
 
 
+def cache_rules(ctx, RID="R13.2"):
+    """Cache invalidation / table-bit-freshen agreement (shared with C20: lookups are exact only if the
+    by-name tables are rebuilt after every load)."""
+    db = ctx.db
+    lk = db.fn("InterrogateDatabase::lookup")
+    # ------------------------------------------------------------- R13.2
+    mf = db.fn("InterrogateDatabase::merge_from")
+    cfg = mf.cfg
+    resets = []
+    for n in mf.walk():
+        t = assigned_target(n)
+        if t and field_of(t[0]) == "InterrogateDatabase::_lookups_fresh" and const_int(t[1]) == 0:
+            resets.append(n)
+    muts = [c for c in mf.walk() if c.get("k") == "call" and c.get("f", "").startswith("InterrogateDatabase::") and callee_short(c).startswith(("add_", "update_"))]
+    muts += [c for c in mf.walk() if c.get("k") == "call" and callee_short(c) in ("push_back", "merge_with", "remap_indices") and "this" in c]
+    ok = False
+    why = "no `_lookups_fresh = 0` in merge_from"
+    if resets:
+        rl = cfg.locate(resets[-1])
+        # every mutation must reach exit only through the reset, and no mutation after it
+        after = set()
+        b = cfg.blocks[rl[0]]
+        later_same = [e for e in b.elems[rl[1] + 1:]]
+        after_blocks = set()
+        for s in b.succs:
+            if s is not None:
+                after_blocks |= cfg.reachable(s)
+        ok = True
+        for m in muts:
+            ml = cfg.locate(m)
+            if ml is None:
+                continue
+            if ml[0] in after_blocks and ml[0] != rl[0]:
+                ok = False
+                why = "mutation %s can run after the reset" % show(m)
+            if ml[0] == rl[0] and ml[1] > rl[1]:
+                ok = False
+                why = "mutation %s follows the reset" % show(m)
+            # exit reachable from the mutation without passing the reset block
+            if cfg.exit in cfg.reachable(ml[0], cut_blocks=[rl[0]]) and ml[0] != rl[0]:
+                ok = False
+                why = "a path from %s to the exit skips the reset" % show(m)
+        if ok:
+            why = "`_lookups_fresh = 0` post-dominates all %d mutations" % len(muts)
+    ctx.ob(RID, "merge_from|reset-after-last-mutation", ok, mf.loc(resets[-1]) if resets else mf.loc(), why)
+    ctx.floor(RID, "mutations in merge_from", len(muts), 14)
+
+    # lookup(): refresh iff bit clear, then set the bit
+    p_type = [p for p in lk.params if p["t"].endswith("LookupType")]
+    p_fresh = [p for p in lk.params if "(InterrogateDatabase::*)" in p["t"]]
+    p_tab = [p for p in lk.params if p["t"].startswith("InterrogateDatabase::Lookup") or p["t"].startswith("Lookup")]
+    if not (p_type and p_fresh and p_tab):
+        ctx.broken("lookup(): parameters (table, type, freshen) not recognised: %s" % [p["t"] for p in lk.params])
+    ok = False
+    for n in lk.walk():
+        if n.get("k") == "if":
+            atom, pos = cond_atom(lk, n["c"])
+            s = re.sub(r"[\s()]", "", show(atom)) if atom else ""
+            if atom is not None and atom.get("k") == "bin" and atom["op"] == "==" and pos and "_lookups_fresh&" in s and s.endswith("==0") and p_type[0]["n"] in s:
+                body = n["then"]
+                called = any(x.get("k") == "call" and "fe" in x and p_fresh[0]["n"] in show(x["fe"]) for x in walk(body))
+                setbit = any(x.get("k") == "bin" and x.get("op") == "|=" and field_of(x["x"]) == "InterrogateDatabase::_lookups_fresh" and p_type[0]["n"] in show(x["y"]) for x in walk(body))
+                ok = called and setbit
+    ctx.ob(RID, "lookup|refresh-iff-stale", ok, lk.loc(), "if ((_lookups_fresh & type) == 0) { (this->*freshen)(); _lookups_fresh |= type; }")
+    finds = [c for c in lk.calls("std::map::find")]
+    ok = len(finds) == 1 and local_ref(finds[0]["this"]) is not None and local_ref(finds[0]["this"])["d"] == p_tab[0]["d"]
+    ctx.ob(RID, "lookup|searches-the-passed-table", ok, lk.loc(), "lookup() searches the table it was given")
+
+    enum = db.enum("InterrogateDatabase::LookupType")
+    vals = [c["v"] for c in enum["consts"]]
+    ctx.ob(RID, "LookupType|distinct-single-bits", len(set(vals)) == len(vals) and all(v > 0 and v & (v - 1) == 0 for v in vals),
+           "src/interrogatedb/interrogateDatabase.h:%d" % enum["line"], "LookupType values %s" % vals)
+    n_l = 0
+    for f in db.methods_of("InterrogateDatabase"):
+        short = f.name.split("::")[-1]
+        if not short.startswith("lookup_"):
+            continue
+        n_l += 1
+        stem = short[len("lookup_"):]                     # type_by_name
+        kind, key = stem.split("_by_")                    # type, name
+        want_tab = "_%ss_by_%s" % (kind, key)
+        want_bit = "LT_%s_%s" % (kind, key)
+        want_fr = "freshen_%ss_by_%s" % (kind, key)
+        calls = [c for c in f.calls("InterrogateDatabase::lookup")]
+        good = False
+        got = None
+        if len(calls) == 1 and len(calls[0]["a"]) == 4:
+            a = calls[0]["a"]
+            tab = (field_of(a[1]) or "").split("::")[-1]
+            bit = (strip_casts(a[2]) or {}).get("n", "").split("::")[-1]
+            fr = None
+            for x in walk(a[3]):
+                if x.get("k") in ("ref", "mem") and "freshen" in x.get("n", ""):
+                    fr = x["n"].split("::")[-1]
+            got = (tab, bit, fr)
+            good = got == (want_tab, want_bit, want_fr)
+        ctx.ob(RID, "%s|table-bit-freshen" % short, good, f.loc(), "passes %s, expected %s" % (got, (want_tab, want_bit, want_fr)))
+        # the freshen function
+        fr = db.fn("InterrogateDatabase::" + want_fr)
+        src_map = {"type": "_type_map", "manifest": "_manifest_map", "element": "_element_map"}[kind]
+        getter = {"name": "get_name", "scoped_name": "get_scoped_name", "true_name": "get_true_name"}[key]
+        cleared = any(c.get("k") == "call" and callee_short(c) == "clear" and (field_of(c.get("this")) or "").endswith("::" + want_tab) for c in fr.walk())
+        filled = False
+        for n in fr.walk():
+            t = assigned_target(n)
+            if not t:
+                continue
+            l = peel(t[0])
+            if l is not None and l.get("k") == "call" and callee_short(l) == "operator[]" and (field_of(l["a"][0]) or "").endswith("::" + want_tab):
+                keyexpr = peel(l["a"][1])
+                kc = keyexpr if keyexpr.get("k") == "call" else None
+                # the loop ranges over the source map
+                lp = next(enclosing_loops(fr, n), None)
+                cont = loop_container(fr, lp) if lp is not None else None
+                filled = (kc is not None and callee_short(kc) == getter and (field_of(cont) or "").endswith("::" + src_map)
+                          and (field_of(t[1]) or "").endswith("first"))
+        ctx.ob(RID, "%s|rebuilds-%s-from-%s-by-%s" % (want_fr, want_tab, src_map, getter), cleared and filled, fr.loc(),
+               "clears %s: %s; fills it from %s keyed by %s(): %s" % (want_tab, cleared, src_map, getter, filled))
+    ctx.floor(RID, "lookup_* wrappers", n_l, 6)
+
+
+
 def run(ctx):
     db = ctx.db
     ctx.rule("R13.1", "in every query member of InterrogateDatabase, check_latest() dominates every read of a primary table or by-name cache")
@@ -109,120 +231,8 @@ def run(ctx):
                   for c in ll.walk())
     ctx.ob("R13.1", "load_latest|drains-requests", drained, ll.loc(), "load_latest() empties _requests (so the next query does not reload)")
 
-    # ------------------------------------------------------------- R13.2
+    cache_rules(ctx, "R13.2")
     mf = db.fn("InterrogateDatabase::merge_from")
-    cfg = mf.cfg
-    resets = []
-    for n in mf.walk():
-        t = assigned_target(n)
-        if t and field_of(t[0]) == "InterrogateDatabase::_lookups_fresh" and const_int(t[1]) == 0:
-            resets.append(n)
-    muts = [c for c in mf.walk() if c.get("k") == "call" and c.get("f", "").startswith("InterrogateDatabase::") and callee_short(c).startswith(("add_", "update_"))]
-    muts += [c for c in mf.walk() if c.get("k") == "call" and callee_short(c) in ("push_back", "merge_with", "remap_indices") and "this" in c]
-    ok = False
-    why = "no `_lookups_fresh = 0` in merge_from"
-    if resets:
-        rl = cfg.locate(resets[-1])
-        # every mutation must reach exit only through the reset, and no mutation after it
-        after = set()
-        b = cfg.blocks[rl[0]]
-        later_same = [e for e in b.elems[rl[1] + 1:]]
-        after_blocks = set()
-        for s in b.succs:
-            if s is not None:
-                after_blocks |= cfg.reachable(s)
-        ok = True
-        for m in muts:
-            ml = cfg.locate(m)
-            if ml is None:
-                continue
-            if ml[0] in after_blocks and ml[0] != rl[0]:
-                ok = False
-                why = "mutation %s can run after the reset" % show(m)
-            if ml[0] == rl[0] and ml[1] > rl[1]:
-                ok = False
-                why = "mutation %s follows the reset" % show(m)
-            # exit reachable from the mutation without passing the reset block
-            if cfg.exit in cfg.reachable(ml[0], cut_blocks=[rl[0]]) and ml[0] != rl[0]:
-                ok = False
-                why = "a path from %s to the exit skips the reset" % show(m)
-        if ok:
-            why = "`_lookups_fresh = 0` post-dominates all %d mutations" % len(muts)
-    ctx.ob("R13.2", "merge_from|reset-after-last-mutation", ok, mf.loc(resets[-1]) if resets else mf.loc(), why)
-    ctx.floor("R13.2", "mutations in merge_from", len(muts), 14)
-
-    # lookup(): refresh iff bit clear, then set the bit
-    p_type = [p for p in lk.params if p["t"].endswith("LookupType")]
-    p_fresh = [p for p in lk.params if "(InterrogateDatabase::*)" in p["t"]]
-    p_tab = [p for p in lk.params if p["t"].startswith("InterrogateDatabase::Lookup") or p["t"].startswith("Lookup")]
-    if not (p_type and p_fresh and p_tab):
-        ctx.broken("lookup(): parameters (table, type, freshen) not recognised: %s" % [p["t"] for p in lk.params])
-    ok = False
-    for n in lk.walk():
-        if n.get("k") == "if":
-            atom, pos = cond_atom(lk, n["c"])
-            s = re.sub(r"[\s()]", "", show(atom)) if atom else ""
-            if atom is not None and atom.get("k") == "bin" and atom["op"] == "==" and pos and "_lookups_fresh&" in s and s.endswith("==0") and p_type[0]["n"] in s:
-                body = n["then"]
-                called = any(x.get("k") == "call" and "fe" in x and p_fresh[0]["n"] in show(x["fe"]) for x in walk(body))
-                setbit = any(x.get("k") == "bin" and x.get("op") == "|=" and field_of(x["x"]) == "InterrogateDatabase::_lookups_fresh" and p_type[0]["n"] in show(x["y"]) for x in walk(body))
-                ok = called and setbit
-    ctx.ob("R13.2", "lookup|refresh-iff-stale", ok, lk.loc(), "if ((_lookups_fresh & type) == 0) { (this->*freshen)(); _lookups_fresh |= type; }")
-    finds = [c for c in lk.calls("std::map::find")]
-    ok = len(finds) == 1 and local_ref(finds[0]["this"]) is not None and local_ref(finds[0]["this"])["d"] == p_tab[0]["d"]
-    ctx.ob("R13.2", "lookup|searches-the-passed-table", ok, lk.loc(), "lookup() searches the table it was given")
-
-    enum = db.enum("InterrogateDatabase::LookupType")
-    vals = [c["v"] for c in enum["consts"]]
-    ctx.ob("R13.2", "LookupType|distinct-single-bits", len(set(vals)) == len(vals) and all(v > 0 and v & (v - 1) == 0 for v in vals),
-           "src/interrogatedb/interrogateDatabase.h:%d" % enum["line"], "LookupType values %s" % vals)
-    n_l = 0
-    for f in db.methods_of("InterrogateDatabase"):
-        short = f.name.split("::")[-1]
-        if not short.startswith("lookup_"):
-            continue
-        n_l += 1
-        stem = short[len("lookup_"):]                     # type_by_name
-        kind, key = stem.split("_by_")                    # type, name
-        want_tab = "_%ss_by_%s" % (kind, key)
-        want_bit = "LT_%s_%s" % (kind, key)
-        want_fr = "freshen_%ss_by_%s" % (kind, key)
-        calls = [c for c in f.calls("InterrogateDatabase::lookup")]
-        good = False
-        got = None
-        if len(calls) == 1 and len(calls[0]["a"]) == 4:
-            a = calls[0]["a"]
-            tab = (field_of(a[1]) or "").split("::")[-1]
-            bit = (strip_casts(a[2]) or {}).get("n", "").split("::")[-1]
-            fr = None
-            for x in walk(a[3]):
-                if x.get("k") in ("ref", "mem") and "freshen" in x.get("n", ""):
-                    fr = x["n"].split("::")[-1]
-            got = (tab, bit, fr)
-            good = got == (want_tab, want_bit, want_fr)
-        ctx.ob("R13.2", "%s|table-bit-freshen" % short, good, f.loc(), "passes %s, expected %s" % (got, (want_tab, want_bit, want_fr)))
-        # the freshen function
-        fr = db.fn("InterrogateDatabase::" + want_fr)
-        src_map = {"type": "_type_map", "manifest": "_manifest_map", "element": "_element_map"}[kind]
-        getter = {"name": "get_name", "scoped_name": "get_scoped_name", "true_name": "get_true_name"}[key]
-        cleared = any(c.get("k") == "call" and callee_short(c) == "clear" and (field_of(c.get("this")) or "").endswith("::" + want_tab) for c in fr.walk())
-        filled = False
-        for n in fr.walk():
-            t = assigned_target(n)
-            if not t:
-                continue
-            l = peel(t[0])
-            if l is not None and l.get("k") == "call" and callee_short(l) == "operator[]" and (field_of(l["a"][0]) or "").endswith("::" + want_tab):
-                keyexpr = peel(l["a"][1])
-                kc = keyexpr if keyexpr.get("k") == "call" else None
-                # the loop ranges over the source map
-                lp = next(enclosing_loops(fr, n), None)
-                cont = loop_container(fr, lp) if lp is not None else None
-                filled = (kc is not None and callee_short(kc) == getter and (field_of(cont) or "").endswith("::" + src_map)
-                          and (field_of(t[1]) or "").endswith("first"))
-        ctx.ob("R13.2", "%s|rebuilds-%s-from-%s-by-%s" % (want_fr, want_tab, src_map, getter), cleared and filled, fr.loc(),
-               "clears %s: %s; fills it from %s keyed by %s(): %s" % (want_tab, cleared, src_map, getter, filled))
-    ctx.floor("R13.2", "lookup_* wrappers", n_l, 6)
 
     # ------------------------------------------------------------- R13.3
     other = mf.params[0]["d"]
